@@ -40,6 +40,10 @@ type c12Case struct {
 	Unsupported []int    `json:"unsupported"`
 	Override    int      `json:"override"`
 	Filler      int      `json:"filler_prepares,omitempty"` // distinct statements PREPAREd between the PREPAREs and the requests
+	// Immediate: every statement is PREPAREd right before its EXECUTE, whose frame leaves the moment the PREPARED
+	// result (describing WideMeta result columns) has arrived
+	Immediate bool `json:"prepare_then_execute_at_once,omitempty"`
+	WideMeta  int  `json:"prepared_result_columns,omitempty"`
 	Reqs        []c12Req `json:"requests"`
 }
 
@@ -86,8 +90,9 @@ func c12Check(c c12Case) *evid.Fail {
 	}
 	r := &runner{e: e, c: cl, v: v, stream: 100, compress: false, prepared: map[string][]byte{}}
 	ids := map[string][]byte{}
+	e.Cluster.PreparedColumns = c.WideMeta
 	for _, q := range c.Reqs {
-		if q.Prepare != "" {
+		if q.Prepare != "" && !c.Immediate {
 			id, err := r.prepare(q.Prepare)
 			if err != nil {
 				return evid.Failf("harness-prepare", "%v", err)
@@ -122,6 +127,13 @@ func c12Check(c c12Case) *evid.Fail {
 	for i, q := range c.Reqs {
 		plain, _ := hex.DecodeString(q.Body)
 		if q.Prepare != "" {
+			if _, ok := ids[q.Prepare]; !ok {
+				id, err := r.prepare(q.Prepare)
+				if err != nil {
+					return evid.Failf("harness-prepare", "%v", err)
+				}
+				ids[q.Prepare] = id
+			}
 			// splice the id the proxy returned into the EXECUTE body (it starts with [short bytes] id)
 			id := ids[q.Prepare]
 			pl := primitive.HeaderFlag(q.Flags).Contains(primitive.HeaderFlagCustomPayload)
@@ -325,6 +337,10 @@ func c12Gen(rt *rapid.T) c12Case {
 		q.Compress = c.Comp != "" && rapid.IntRange(0, 3).Draw(rt, "compress") > 0
 		c.Reqs = append(c.Reqs, q)
 	}
+	if rapid.IntRange(0, 3).Draw(rt, "immediate") == 0 {
+		c.Immediate = true
+		c.WideMeta = rapid.SampledFrom([]int{0, 40, 1500, 5000}).Draw(rt, "widemeta")
+	}
 	return c
 }
 
@@ -341,6 +357,9 @@ func TestC12(t *testing.T) {
 	runProp(t, rec, "override", perShard(evid.Pick(10000, 400000)), func(rt *rapid.T) c12Case {
 		c := c12Gen(rt)
 		labels := []string{"client:" + protogen.VersionName(primitive.ProtocolVersion(c.Version)), "comp:" + map[bool]string{true: c.Comp, false: "none"}[c.Comp != ""], fmt.Sprintf("listed:%d", len(c.Unsupported))}
+		if c.Immediate {
+			labels = append(labels, fmt.Sprintf("prepare-then-execute-at-once:cols=%d", c.WideMeta))
+		}
 		key := ""
 		for _, q := range c.Reqs {
 			listed := c12Contains(c.Unsupported, q.Consistency)
